@@ -35,17 +35,20 @@ class Stream:
 class ReproCase(Case):
     family = "reproducibility"
 
-    def __init__(self, cid, *, methods, N=2, R=2, P=2, shared=False, sampler_map=None, mask=None, interference="earlier-run"):
+    def __init__(self, cid, *, methods, N=2, R=2, P=2, shared=False, sampler_map=None, mask=None, interference="earlier-run", options=None):
         self.id = cid
         self.methods, self.N, self.R, self.P, self.shared, self.sampler_map, self.mask = methods, N, R, P, shared, sampler_map, mask
         self.interference = interference
-        samplers = [{"method": m, "shared": shared} for m in methods]
+        self.options = options or {}
+        samplers = [{"method": m, "shared": shared, "options": dict(self.options)} for m in methods]
         self.cfg_a = ens.ensemble_config(N=N, R=R, P=P, mask=mask, samplers=samplers, sampler_map=sampler_map, seed=11)
         self.cfg_b = ens.ensemble_config(N=N, R=R, P=P, mask=mask, samplers=samplers, sampler_map=sampler_map, seed=12)
-        self.cfg_other = ens.ensemble_config(N=N, R=1, P=3, samplers=[{"method": methods[-1]}], seed=11)
+        # the earlier, unrelated optimization uses the same method with explicit distribution options
+        other_opts = {"uniform": {"loc": -0.5, "scale": 1.0}, "truncnorm": {"a": -0.5, "b": 0.5}, "norm": {"scale": 2.0}}.get(methods[-1], {})
+        self.cfg_other = ens.ensemble_config(N=N, R=1, P=3, samplers=[{"method": methods[-1], "options": other_opts}], seed=11)
 
     def describe(self):
-        return f"samplers={self.methods} shared={self.shared} map={self.sampler_map} mask={self.mask} N={self.N} R={self.R} P={self.P} interference={self.interference}"
+        return f"samplers={self.methods} options={self.options} shared={self.shared} map={self.sampler_map} mask={self.mask} N={self.N} R={self.R} P={self.P} interference={self.interference}"
 
     def inputs(self, env):
         u = {}
@@ -78,9 +81,12 @@ class ReproCase(Case):
                 for idx in np.ndindex(*size):
                     x = draw(random_state)
                     if self.name == "norm":
-                        x = (x - Fraction(1, 2)) * 6
+                        x = (x - Fraction(1, 2)) * 6 * Fraction(opts.get("scale", 1.0)) + Fraction(opts.get("loc", 0.0))
+                    elif self.name == "uniform":
+                        x = Fraction(opts.get("loc", 0.0)) + x * Fraction(opts.get("scale", 1.0))
                     else:
-                        x = x * 2 - 1
+                        a, b = Fraction(opts.get("a", -1.0)), Fraction(opts.get("b", 1.0))
+                        x = a + x * (b - a)
                     out[idx] = x
                 return env.arr(out)
 
@@ -174,6 +180,30 @@ class ReproCase(Case):
             props.append(("labels_equal", SB(list(c1.realizations) == list(c2.realizations)
                                              and list(c1.perturbations) == list(c2.perturbations))))
         props.append(("same_config_and_seed_give_identical_requests", all_of(same_seed)))
+        # absolute form for a single distribution sampler: the perturbations are the seeded draws, mapped with the
+        # *configured* distribution options (defaults if none) - whatever ran earlier in this process
+        if len(self.methods) == 1 and self.methods[0] in STATS and not self.shared and self.mask is None and self.sampler_map is None:
+            m = self.methods[0]
+            R, P, N = self.R, self.P, self.N
+            for run in ("run1", "run2"):
+                k = 0
+                for e, (v, c) in enumerate(o[run]):
+                    a = np.asarray(vals(v), dtype=object)
+                    x = 0.5 * e   # the second evaluation is at x + 0.5
+                    for r in range(R):
+                        for p_ in range(P):
+                            for j in range(N):
+                                u = inp["u"]["seed11"][k]
+                                k += 1
+                                if m == "norm":
+                                    d = (u - Fraction(1, 2)) * 6 * Fraction(self.options.get("scale", 1.0)) + Fraction(self.options.get("loc", 0.0))
+                                elif m == "uniform":
+                                    d = Fraction(self.options.get("loc", -1.0)) + u * Fraction(self.options.get("scale", 2.0))
+                                else:
+                                    lo_, hi_ = Fraction(self.options.get("a", -1.0)), Fraction(self.options.get("b", 1.0))
+                                    d = lo_ + u * (hi_ - lo_)
+                                props.append((f"{run}.eval{e}.r{r}p{p_}v{j}.is_seeded_draw_with_configured_options",
+                                              close(a[R + r * P + p_, j], SR(Fraction(x)) + SR(Fraction(1, 10)) * d)))
         props.append(("canary:another_seed_gives_the_same_perturbations", all_of(other_seed)))
         return props
 
@@ -239,6 +269,8 @@ def build_cases(tier):
     add(methods=("norm", "lhs"), N=3, sampler_map=(0, 1, 0))
     add(methods=("sobol", "uniform"), N=3, sampler_map=(1, 0, 1), shared=True)
     add(methods=("truncnorm",), N=3, mask=(True, False, True), interference="hidden-only")
+    add(methods=("lhs",), options={"scramble": False})
+    add(methods=("sobol",), options={"scramble": False}, interference="hidden-only")
     for key in ("seed", "rng"):
         for par in (False, True):
             k += 1
